@@ -27,6 +27,7 @@ import (
 	"github.com/emersion/go-sasl"
 	"github.com/foxcpp/maddy/framework/config"
 	modconfig "github.com/foxcpp/maddy/framework/config/module"
+	"github.com/foxcpp/maddy/framework/exterrors"
 	"github.com/foxcpp/maddy/framework/log"
 	"github.com/foxcpp/maddy/framework/module"
 	"github.com/foxcpp/maddy/internal/auth/sasllogin"
@@ -123,6 +124,15 @@ func (s *SASLAuth) AuthPlain(username, password string) error {
 	return fmt.Errorf("no auth. provider accepted creds, last err: %w", lastErr)
 }
 
+// authError hides the details of the failure from the client but keeps the
+// information whether it is worth trying again later.
+func authError(err error) error {
+	if exterrors.IsTemporary(err) {
+		return exterrors.WithTemporary(ErrInvalidAuthCred, true)
+	}
+	return ErrInvalidAuthCred
+}
+
 type ContextData struct {
 	// Authentication username. May be different from identity.
 	Username string
@@ -146,7 +156,7 @@ func (s *SASLAuth) CreateSASL(mech string, remoteAddr net.Addr, successCb func(i
 			err := s.AuthPlain(username, password)
 			if err != nil {
 				s.Log.Error("authentication failed", err, "username", username, "src_ip", remoteAddr)
-				return ErrInvalidAuthCred
+				return authError(err)
 			}
 
 			return successCb(identity, ContextData{
@@ -166,7 +176,7 @@ func (s *SASLAuth) CreateSASL(mech string, remoteAddr net.Addr, successCb func(i
 			err := s.AuthPlain(username, password)
 			if err != nil {
 				s.Log.Error("authentication failed", err, "username", username, "src_ip", remoteAddr)
-				return ErrInvalidAuthCred
+				return authError(err)
 			}
 
 			return successCb(username, ContextData{
